@@ -133,6 +133,7 @@ func c08Call(c *Ctx, cs *c08Sess, caseID string, m *apiMethod, args []string, cl
 	c.J.Log("CASE %s %s %q", caseID, m.Name, args)
 	cs.n++
 	sep := fmt.Sprintf("VSYNC %d", cs.n)
+	rig.CallTick()
 	m.Call(cs.s.Conn, args)
 	cs.s.Conn.Raw(sep)
 	ok := cs.mc.WaitLines(WaitLong, func(lines []string) bool {
@@ -349,7 +350,14 @@ func runC08Conc(c *Ctx) {
 				}
 				var want string
 				var f func(*client.Conn)
-				switch rg.Intn(8) {
+				short := tag + " short text"
+				switch rg.Intn(11) {
+				case 8:
+					want, f = "PRIVMSG #c :"+short, func(cc *client.Conn) { cc.Privmsg("#c", short) }
+				case 9:
+					want, f = "NOTICE "+tag+" :"+short, func(cc *client.Conn) { cc.Notice(tag, short) }
+				case 10:
+					want, f = "PRIVMSG #c :\x01ACTION "+short+"\x01", func(cc *client.Conn) { cc.Action("#c", short) }
 				case 0:
 					want, f = "TOPIC #c :"+text, func(cc *client.Conn) { cc.Topic("#c", text) }
 				case 1:
